@@ -290,6 +290,16 @@ structure Checked where
   price  : Option Rat
 deriving DecidableEq, Repr
 
+/-- the price a request asks for: `price_in_token`, else `price_in_usd / Decimal(str(underlying_price))` -/
+def reqPrice (cx : DCtx) (ins : Instr) (r : Req) : Except Err (Option Rat) :=
+  match r.priceTok, r.priceUsd with
+  | some p, _ => .ok (some p)
+  | none, some u =>
+    match decDiv cx u (cx.reprD ins.underlying) with
+    | .ok p => .ok (some p)
+    | .error e => .error e
+  | none, none => .ok none
+
 /-- `check_transaction` -/
 def checkTx (cx : DCtx) (c : TokenCfg) (book : List Instr) (r : Req) (isBuy : Bool) : Except Err Checked :=
   match findInstr book r.name with
@@ -299,15 +309,7 @@ def checkTx (cx : DCtx) (c : TokenCfg) (book : List Instr) (r : Req) (isBuy : Bo
     else if r.amount < c.minAmount then .error (.demeter "below-min-amount")
     else
       let amount := tradeAmount c r.amount
-      let priceR : Except Err (Option Rat) :=
-        match r.priceTok, r.priceUsd with
-        | some p, _ => .ok (some p)
-        | none, some u =>
-          match decDiv cx u (cx.reprD ins.underlying) with
-          | .ok p => .ok (some p)
-          | .error e => .error e
-        | none, none => .ok none
-      match priceR with
+      match reqPrice cx ins r with
       | .error e => .error e
       | .ok price =>
         match availSide cx ins r.mult isBuy with
@@ -385,36 +387,45 @@ deriving DecidableEq, Repr
 
 abbrev Outcome := Except Err Res
 
+/-- the position record after buying `ck.amount` at average price `avg`: a fresh record, or the old one
+    with the size-weighted average buy price -/
+def boughtPosition (cx : DCtx) (old : Option Position) (r : Req) (ck : Checked) (avg : Rat) : Position :=
+  match old with
+  | none =>
+    { name := r.name, expiry := ck.ins.expiry, strike := ck.ins.strike, kind := ck.ins.kind,
+      amount := ck.amount, avgBuy := avg, buyAmt := ck.amount, avgSell := 0, sellAmt := 0 }
+  | some p =>
+    { p with avgBuy := avgPrice cx [⟨avg, ck.amount⟩, ⟨p.avgBuy, p.buyAmt⟩],
+             buyAmt := cx.num.add p.buyAmt ck.amount,
+             amount := cx.num.add p.amount ck.amount }
+
+/-- the position record after selling `amount` at average price `avg` -/
+def soldPosition (cx : DCtx) (p : Position) (amount avg : Rat) : Position :=
+  { p with avgSell := avgPrice cx [⟨avg, amount⟩, ⟨p.avgSell, p.sellAmt⟩],
+           sellAmt := cx.num.add p.sellAmt amount,
+           amount := cx.num.sub p.amount amount }
+
+def tradeRec (cx : DCtx) (r : Req) (ck : Checked) (fills : List Fill) (prem fee : Rat) : TradeRec :=
+  { name := r.name, kind := ck.ins.kind, avgPrice := avgPrice cx fills, amount := ck.amount, premium := prem,
+    markD := cx.reprD ck.ins.mark, underD := cx.reprD ck.ins.underlying, fee := fee, orders := fills }
+
 /-- `buy` (behind `write_func`) -/
 def buy (cx : DCtx) (c : TokenCfg) (s : DState) (r : Req) : Outcome × DState :=
   if !s.flagOpen then (.error (.demeter "market-closed"), s) else
   match checkTx cx c s.book r true with
   | .error e => (.error e, s)
   | .ok ck =>
-    let asks := availAsks cx ck.ins r.mult
-    let fills := deduct cx ck.amount asks ck.price
+    let fills := deduct cx ck.amount (availAsks cx ck.ins r.mult) ck.price
     let prem := premiumOf cx fills
     let fee := tradeFee cx c ck.amount prem
     let left := cx.num.sub s.cash (cx.num.add prem fee)
     if left < 0 then (.error .insufficientBalance, s) else
-    let avg := avgPrice cx fills
-    let pos : Position :=
-      match AList.get? s.positions r.name with
-      | none =>
-        { name := r.name, expiry := ck.ins.expiry, strike := ck.ins.strike, kind := ck.ins.kind,
-          amount := ck.amount, avgBuy := avg, buyAmt := ck.amount, avgSell := 0, sellAmt := 0 }
-      | some p =>
-        { p with avgBuy := avgPrice cx [⟨avg, ck.amount⟩, ⟨p.avgBuy, p.buyAmt⟩],
-                 buyAmt := cx.num.add p.buyAmt ck.amount,
-                 amount := cx.num.add p.amount ck.amount }
-    let rec_ : TradeRec :=
-      { name := r.name, kind := ck.ins.kind, avgPrice := avg, amount := ck.amount, premium := prem,
-        markD := cx.reprD ck.ins.mark, underD := cx.reprD ck.ins.underlying, fee := fee, orders := fills }
     (.ok (.trade fills fee),
      { s with cash := left
               book := setAsks s.book r.name (newOrderList cx ck.ins.asks fills)
-              positions := AList.set s.positions r.name pos
-              actions := s.actions ++ [.buy rec_] })
+              positions := AList.set s.positions r.name
+                (boughtPosition cx (AList.get? s.positions r.name) r ck (avgPrice cx fills))
+              actions := s.actions ++ [.buy (tradeRec cx r ck fills prem fee)] })
 
 /-- `sell` (behind `write_func`) -/
 def sell (cx : DCtx) (c : TokenCfg) (s : DState) (r : Req) : Outcome × DState :=
@@ -432,21 +443,13 @@ def sell (cx : DCtx) (c : TokenCfg) (s : DState) (r : Req) : Outcome × DState :
         let fills := deduct cx ck.amount bids ck.price
         let prem := premiumOf cx fills
         let fee := tradeFee cx c ck.amount prem
-        let cash := cx.num.add s.cash (cx.num.sub prem fee)
-        let avg := avgPrice cx fills
-        let p' : Position :=
-          { p with avgSell := avgPrice cx [⟨avg, ck.amount⟩, ⟨p.avgSell, p.sellAmt⟩],
-                   sellAmt := cx.num.add p.sellAmt ck.amount,
-                   amount := cx.num.sub p.amount ck.amount }
-        let rec_ : TradeRec :=
-          { name := r.name, kind := ck.ins.kind, avgPrice := avg, amount := ck.amount, premium := prem,
-            markD := cx.reprD ck.ins.mark, underD := cx.reprD ck.ins.underlying, fee := fee, orders := fills }
+        let p' := soldPosition cx p ck.amount (avgPrice cx fills)
         (.ok (.trade fills fee),
-         { s with cash := cash
+         { s with cash := cx.num.add s.cash (cx.num.sub prem fee)
                   book := setBids s.book r.name (newOrderList cx ck.ins.bids fills)
                   positions := if p'.amount ≤ 0 then AList.erase s.positions r.name
                                else AList.set s.positions r.name p'
-                  actions := s.actions ++ [.sell rec_] })
+                  actions := s.actions ++ [.sell (tradeRec cx r ck fills prem fee)] })
 
 /-- `deposit` (not behind `write_func`) -/
 def deposit (cx : DCtx) (c : TokenCfg) (s : DState) (amount : Rat) : Outcome × DState :=
@@ -523,9 +526,9 @@ def itm (p : Position) (under : Rat) : Option Bool :=
   | .put => if p.strike > under then some false else none
   | .call => if p.strike < under then some true else none
 
-def settleRec (c : TokenCfg) (key : String) (p : Position) (mark under : Rat) : SettleRec :=
+def settleRec (cx : DCtx) (c : TokenCfg) (key : String) (p : Position) (mark under : Rat) : SettleRec :=
   { name := key, kind := p.kind, markR := roundDec c.feeExp mark, amount := p.amount,
-    premium := 0, strike := p.strike, underR := roundDec c.feeExp under }
+    premium := cx.num.mul p.amount (roundDec c.feeExp mark), strike := p.strike, underR := roundDec c.feeExp under }
 
 /-- first loop of `check_option_exercise`: cash and Deliver records for the due positions -/
 def exerciseLoop (cx : DCtx) (c : TokenCfg) (s : DState) :
@@ -540,7 +543,7 @@ def exerciseLoop (cx : DCtx) (c : TokenCfg) (s : DState) :
         | some isCall => deliverOption cx c p mark under isCall
       match paid with
       | some (gross, fee) =>
-        let sr := { settleRec c k p mark under with premium := cx.num.mul p.amount (roundDec c.feeExp mark) }
+        let sr := settleRec cx c k p mark under
         exerciseLoop cx c s ps
           (cx.num.add cash (cx.num.sub gross fee),
            acts ++ [.deliver sr gross fee (cx.num.sub gross fee)], keys ++ [k])
@@ -559,7 +562,7 @@ def expireLoop (cx : DCtx) (c : TokenCfg) (s : DState) :
         match findInstr s.book k with
         | some _ => settleQuote s p.name
         | none => (0, s.price)
-      let sr := { settleRec c k p mark under with premium := cx.num.mul p.amount (roundDec c.feeExp mark) }
+      let sr := settleRec cx c k p mark under
       expireLoop cx c s ks (AList.erase pos k, acts ++ [.expired sr])
 
 /-- `check_option_exercise` -/
